@@ -86,6 +86,8 @@ def evaluate(ctx, specs, rng, profiles, want_brute, out, kind):
             add_failure(out, "spec", "likelihood function construction raised", _slim(spec), "a likelihood function",
                         f"{type(e).__name__}: {e}", sig=f"build-raised:{spec['kind']}:{type(e).__name__}")
             continue
+        if kind == "spec":
+            _check_lengths(lf, spec, out)
         uc = _uniq_cols(ex["cols"])
         brute = []
         if want_brute:
@@ -152,6 +154,29 @@ def evaluate(ctx, specs, rng, profiles, want_brute, out, kind):
             out["samples"].append(dict(model=spec["model"], newick=spec["newick"], bins=feat["bins"], rules=spec["rules"][:3],
                                        seqs={k: v[:24] for k, v in list(spec["seqs"].items())[:3]}, lnL=b["lnl"],
                                        unique_columns=len(counts)))
+
+
+def _check_lengths(lf, spec, out):
+    """the branch lengths of the tree the caller supplied are the `length` parameters of the calculation"""
+    if spec["model"] in U.DISCRETE:
+        return
+    ruled = {r.get("edge") for r in spec.get("rules", []) if r["par_name"] == "length"}
+
+    def walk(n):
+        for c in n["children"]:
+            if c["len"] is not None and c["name"] not in ruled:
+                got = float(lf.get_param_value("length", edge=c["name"]))
+                out["evaluations"] += 1
+                if got != float(c["len"]):
+                    add_failure(out, "spec", "edge length used by the calculation differs from the tree's branch length",
+                                dict(_slim(spec), check="length", edge=c["name"]), float(c["len"]), got,
+                                sig=f"length-from-tree:{'zero' if float(c['len']) == 0.0 else 'nonzero'}")
+                    return True
+            if walk(c):
+                return True
+        return False
+
+    walk(spec["tree"])
 
 
 def _model_plan(ctx, rng, n_nuc, n_codon, n_prot, n_dinuc):
@@ -317,7 +342,7 @@ def spec_check(ctx, budget):
     evaluate(ctx, specs, rng, "oracle", 4, out, "spec")
     # all columns sum to one + P = exp(Qt)
     for i in range(2 * budget):
-        name = nuc[(i + 3 * ctx.seed) % len(nuc)]
+        name = rng.choice(nuc)
         spec = _all_columns_problem(rng, name, rng.choice([3, 3, 4]))
         try:
             lf = _check_sum_one(spec, rng, out)
@@ -357,6 +382,9 @@ def _recheck(ctx, inp):
     elif check == "expm":
         lf = U.build_lf(spec, None)
         _check_expm(lf, spec, out)
+    elif check == "length":
+        lf = U.build_lf(spec, None)
+        _check_lengths(lf, spec, out)
     else:
         evaluate(ctx, [spec], None, "oracle", 10**6, out, "spec")
     fails = [f for f in out["failures"] if f["kind"] == "spec"]
